@@ -1,4 +1,5 @@
 import Httpcache.Proofs.Store
+import Httpcache.Proofs.VaryKey
 /-
 C08 — Validation results are written back: 304 freshens, 200 replaces.
 
@@ -14,7 +15,9 @@ open Httpcache
 
 /-- 304 answering the stored validators (`hval`: no precondition of the client's own reached the origin in
     their place; such a 304 is the origin's answer to the client and leaves the store alone, C06), with no-store neither on
-    the request nor on the 304 (`hns`, `hns'`: then nothing of the 304 may be written, C06): the entry is written back under its own id with the merged header fields, the unchanged
+    the request nor on the 304 (`hns`, `hns'`: then nothing of the 304 may be written, C06), and leaving the Vary field as it is (`hvary`; a 304
+    that changes it makes the cache store the merged response anew under what it now varies on, C04 —
+    `freshen_with_new_vary_is_stored_anew`): the entry is written back under its own id with the merged header fields, the unchanged
     status and body and the timestamps of the validation exchange (so its age restarts), and the
     caller gets that response marked REVALIDATED. Foreground and background validation both go
     through this function. -/
@@ -22,12 +25,41 @@ theorem freshen_writes_back (cfg : Cfg) (reqH : Header) (key : Str) (stored : En
     (f : Freshness) (ccReq : Directives) (mv : Bool) (start t1 : Int) (r : Resp) (b : Bool) (tr : List Step) (res : Result)
     (h304 : r.status = 304) (hval : clientPreconditionForwarded reqH stored.resp.header = false) (hid : stored.id ≠ [])
     (hns : ccReq.noStore = false) (hns' : (parseCC r.header).noStore = false)
+    (hvary : joinWith [',', ' '] (Header.values (updateStoredHeaders (Header.del stored.resp.header sAge) r.header) sVary) =
+             joinWith [',', ' '] (Header.values stored.resp.header sVary))
     (h : Run (handleValidation cfg sGET reqH key stored refs ri f ccReq mv start (.resp r t1 b) (fun r => .ret r)) tr res) :
     ∃ ok, tr = [Step.setEntry stored.id
         { stored with requestedAt := start, receivedAt := t1,
                       resp := respWith stored.resp (updateStoredHeaders (Header.del stored.resp.header sAge) r.header) } ok] ∧
       res = .resp (respWith stored.resp (applyStatus .revalidated (updateStoredHeaders (Header.del stored.resp.header sAge) r.header))) :=
-  freshen_persists cfg reqH key stored refs ri f ccReq mv start t1 r b tr res h304 hval hid hns hns' h
+  freshen_persists cfg reqH key stored refs ri f ccReq mv start t1 r b tr res h304 hval hid hns hns' hvary h
+
+/-- … and a 304 that CHANGES the Vary field: the stored response with the merged fields (same status, same
+    body) is stored anew like a full reply — the entry under the variant id of the CLIENT's request and of
+    what the response now says it varies on, the index with a reference carrying exactly those values
+    (`NamedWrites`) — so that it is never again selected by a nomination it no longer has (on the pinned
+    tree the index kept the old nomination while the stored Vary changed: a request differing in a newly
+    nominated field was served the response, C04) -/
+theorem freshen_with_new_vary_is_stored_anew (cfg : Cfg) (reqH : Header) (key : Str) (stored : Entry) (refs : List Ref) (ri : Option Nat)
+    (f : Freshness) (ccReq : Directives) (mv : Bool) (start t1 : Int) (r : Resp) (b : Bool) (tr : List Step) (res : Result)
+    (h304 : r.status = 304) (hval : clientPreconditionForwarded reqH stored.resp.header = false) (hid : stored.id ≠ [])
+    (hns : ccReq.noStore = false) (hns' : (parseCC r.header).noStore = false)
+    (hvary : joinWith [',', ' '] (Header.values (updateStoredHeaders (Header.del stored.resp.header sAge) r.header) sVary) ≠
+             joinWith [',', ' '] (Header.values stored.resp.header sVary))
+    (h : Run (handleValidation cfg sGET reqH key stored refs ri f ccReq mv start (.resp r t1 b) (fun r => .ret r)) tr res) :
+    NamedWrites cfg reqH (respWith stored.resp (updateStoredHeaders (Header.del stored.resp.header sAge) r.header)) key refs tr ∧
+    ∃ x, res = .resp x ∧ x.status = stored.resp.status ∧ x.body = stored.resp.body := by
+  unfold handleValidation at h
+  simp only [h304, hval, decide_true, Bool.and_self, Bool.not_false, ↓reduceIte] at h
+  have hne : stored.id.isEmpty = false := by cases hs : stored.id with
+    | nil => exact absurd hs hid
+    | cons c cs => rfl
+  simp only [hne, hns, hns', Bool.or_self, Bool.false_eq_true, ↓reduceIte, ne_eq, hvary, not_false_eq_true] at h
+  obtain ⟨t1', t2', ht, hw, hk⟩ := storeResponse_names _ _ _ _ _ _ _ _ _ _ _ _ h
+  cases hk
+  simp only [List.append_nil] at ht
+  subst ht
+  exact ⟨hw, _, rfl, rfl, rfl⟩
 
 /-- the merge never takes Content-Length from the 304 -/
 theorem merge_keeps_content_length (stored new : Header) :
